@@ -148,6 +148,7 @@ WORK = [
     (('a',), {}), ((1.5,), {'b': 'z'}), ((1, 2, 3), {'k': 2, 'w': 'q'}), (((1, 'a'),), {'b': (2.5,)}),
     ((), {'a': 'kw', 'b': 7}), ((b'by',), {'k': None}), ((10 ** 20, 1, 'x'), {'z': 1, 'y': 2}), ((True,), {}),
     ((1,), {'p': 1, 'q': 'two', 'r': 2.5}), ((2,), {'b': 'bee', 'q': None, 'p': (1,)}),
+    ((Tagged(4),), {'k': Tagged(5)}),
 ]
 # the same calls, spelled differently (keyword order permuted, defaults spelled out)
 WORK_B = [
@@ -155,6 +156,7 @@ WORK_B = [
     ((), {'b': 7, 'a': 'kw'}), ((b'by', 1), {'k': None}), ((10 ** 20, 1, 'x'), {'y': 2, 'z': 1, 'k': 1}), ((True, 1), {'k': 1}),
     # extra keywords of different types, given in another order
     ((1,), {'r': 2.5, 'q': 'two', 'p': 1}), ((), {'p': (1,), 'q': None, 'a': 2, 'b': 'bee'}),
+    ((), {'k': Tagged(5), 'a': Tagged(4)}),
 ]
 
 
@@ -170,10 +172,10 @@ def e2e_configs(which='c17'):
         for alg in ('no', 'inf', 'lru', 'lfu', 'mru', 'rr'):
             for arch in ('file', 'dir', 'sql'):
                 for km in ('stringmap()', 'stringmap(flat=False)', 'picklemap(pickle)', 'hashmap(md5)', 'hashmap(sha1,typed)',
-                           'stringmap(typed,flat=False)', 'keymap(typed)'):
+                           'stringmap(typed,flat=False)', 'keymap(typed)', 'picklemap(dill)', 'picklemap(dill as module object)'):
                     if alg not in ('lru', 'inf') and km not in ('stringmap(flat=False)', 'hashmap(md5)'):
                         continue
-                    if 'typed' in km and arch != 'file':
+                    if ('typed' in km or 'dill' in km) and arch != 'file':
                         continue
                     out.append((mod, alg, arch, km))
     return out
@@ -254,13 +256,44 @@ def siblings_mode(phase, root, out):
                 out['%s.%s_cache file %s sibling(k=%d)' % (mod, alg, kmname, n)] = {'info': list(W.info()), 'evaluations': len(calls), 'results': results}
 
 
+def unrelated_failures():
+    """process state: things a session may have done before it reaches the cached functions -- here, calls whose
+    arguments no keymap can encode (a safe cache just evaluates the function for them)"""
+    import klepto.safe
+    import klepto.keymaps as km
+    import dill
+    for mk in (lambda: km.picklemap(serializer='dill'), lambda: km.picklemap(serializer=dill), lambda: km.picklemap(serializer='pickle'),
+               lambda: km.stringmap(), lambda: km.hashmap(algorithm='md5')):
+        f = klepto.safe.inf_cache(keymap=mk())(lambda x, **kw: 0)
+        for bad in ((i for i in ()), ReprRaises(), [1, {2: (i for i in ())}]):
+            try:
+                f(bad)
+                f(1, opt=bad)
+            except Exception:
+                pass
+
+
+class ReprRaises(object):
+    def __repr__(self):
+        raise TypeError('no repr')
+
+    def __reduce_ex__(self, proto):
+        raise TypeError('cannot be pickled')
+
+
 def e2e_mode(phase, root, which='c17'):
     out = {}
+    if which == 'c17' and phase == 'read':
+        unrelated_failures()        # only the later session has this history
     if which == 'c17':
         siblings_mode(phase, root, out)
     for cfg in e2e_configs(which):
         W, calls = _mk(*cfg, root=root)
         work = WORK if phase == 'write' else WORK_B
+        if cfg[3].startswith('keymap('):
+            # a raw key holds the argument objects (and, typed, their classes) themselves: an instance of a class that
+            # each session defines anew is not "the same argument" in the next session -- outside C17's quantifier
+            work = [c for c in work if not any(isinstance(x, Tagged) for x in list(c[0]) + list(c[1].values()))]
         results = []
         for a, kw in work:
             try:
